@@ -78,7 +78,7 @@ func extractSecure(p *pkgs, f *facts) {
 		reattachGuard = iGuard >= 0 && iReattach >= 0 && iGuard < iReattach
 		checkBeforeLaunch = iCheck >= 0 && iLaunch >= 0 && iCheck < iLaunch
 		if checkCall != nil {
-			checksCmdPath = len(checkCall.Args) == 1 && exprString(checkCall.Args[0]) == "cmd.Path" && launchArgsOK && sawRunnerCtor
+			checksCmdPath = len(checkCall.Args) == 1 && isCmdPathExpr(list[iCheck], checkCall.Args[0]) && launchArgsOK && sawRunnerCtor
 			// failure arms inside the statement that holds the call
 			errArm, okArm := false, false
 			ast.Inspect(list[iCheck], func(n ast.Node) bool {
@@ -132,4 +132,31 @@ func returnsNonNilErr(b *ast.BlockStmt) bool {
 		return false
 	}
 	return true
+}
+
+// isCmdPathExpr: the expression is cmd.Path, or a local that is only ever assigned
+// cmd.Path or filepath.Join(cmd.Dir, <itself or cmd.Path>) inside the statement `scope`
+// (the path os/exec will actually execute: a relative Path is evaluated relative to Dir).
+func isCmdPathExpr(scope ast.Node, e ast.Expr) bool {
+	if exprString(e) == "cmd.Path" {
+		return true
+	}
+	id, ok := e.(*ast.Ident)
+	if !ok {
+		return false
+	}
+	assigned, good := false, true
+	ast.Inspect(scope, func(n ast.Node) bool {
+		as, ok := n.(*ast.AssignStmt)
+		if !ok || len(as.Lhs) != 1 || len(as.Rhs) != 1 || exprString(as.Lhs[0]) != id.Name {
+			return true
+		}
+		assigned = true
+		r := exprString(as.Rhs[0])
+		if r != "cmd.Path" && r != "filepath.Join(cmd.Dir,"+id.Name+")" && r != "filepath.Join(cmd.Dir,cmd.Path)" {
+			good = false
+		}
+		return true
+	})
+	return assigned && good
 }
